@@ -9,7 +9,7 @@ import (
 func init() {
 	register(&Property{
 		ID: "C13", Level: "exploration", Builds: []string{"plain", "race"},
-		Rule:        "cases = the C05 bitmap population (history-dependent chunk kinds and orders, empty bitmap, ~300 chunks; one 65536-chunk bitmap) x destination buffer sizes {0, size-1, size, size+1, size+random}: Freeze, FreezeTo and WriteFrozenTo must produce identical bytes of length GetFrozenSizeInBytes = returned count; FreezeTo into a too-small buffer must return an error and leave the buffer untouched; an INDEPENDENT parser of the CRoaring frozen layout (arenas in bitmap, run, array order; keys; counts = cardinality-1 for array/bitmap and number of runs for run; type codes 1/2/3; 15-bit cookie 13766 + chunk count) must decode the model's set and see the stored kinds; FrozenView and MustFrozenView of the bytes, placed in PROT_READ guard memory (start- and end-flush), must be Equal to the original, validate, answer queries and survive 25 mutation steps against the model without writing to the buffer (memory fault / checksum). Non-trivial: non-empty bitmap; distinct = hash(set, kinds). Race build: independent bitmaps on independent goroutines (4-32 goroutines, GOMAXPROCS 1-16; every writer through a writer that yields inside Write, every decoder through a reader that yields inside Read, private mutations in between) must neither race inside the library nor influence each other (each goroutine checks its own model, an independent decoder and byte equality of all writers).",
+		Rule:        "cases = the C05 bitmap population (history-dependent chunk kinds and orders, empty bitmap, ~300 chunks; one 65536-chunk bitmap) x destination buffer sizes {0, size-1, size, size+1, size+random}: Freeze, FreezeTo and WriteFrozenTo must produce identical bytes of length GetFrozenSizeInBytes = returned count; FreezeTo into a too-small buffer must return an error and leave the buffer untouched; an INDEPENDENT parser of the CRoaring frozen layout (arenas in bitmap, run, array order; keys; counts = cardinality-1 for array/bitmap and number of runs for run; type codes 1/2/3; 15-bit cookie 13766 + chunk count) must decode the model's set and see the stored kinds; FrozenView and MustFrozenView of the bytes, placed in PROT_READ guard memory (start- and end-flush), must be Equal to the original, validate, answer queries and survive 25 mutation steps against the model without writing to the buffer (memory fault / checksum). Non-trivial: non-empty bitmap; distinct = hash(set, kinds). Race build: independent bitmaps on independent goroutines (4-32 goroutines, GOMAXPROCS 1-16; every writer through a writer that yields inside Write, every decoder through a reader that yields inside Read, private mutations in between) must neither race inside the library nor influence each other (each goroutine checks its own model, an independent decoder and byte equality of all writers). Exhaustive sub-space: every chunk count through the three writers, the independent parser and both views; returned slices are overwritten by the caller and Freeze repeated; FreezeTo destinations at odd offsets of larger buffers; second generation of mutated views.",
 		Assumptions: []string{"interval-set model validated by selfcheck", "the frozen parser is this author's reading of the layout comment in CRoaring; the golden .frozen files anchor it (C06 golden unit)"},
 		Units: []Unit{
 			{Name: "frozen", Quick: 4000, Thorough: 120000, Run: c13Frozen},
